@@ -156,6 +156,33 @@ def must_target(it, op):
     return None
 
 
+def retained_check(it, S, ctx, case, i, op):
+    """
+    Handles obtained earlier (at creation, or right after a reopen) and already used for reading are access
+    paths too: the timestamps they report must be the stored ones (what the walk reads through fresh handles),
+    whoever forced or updated them.  Reading here also 'warms' the handles for the following ops.
+    """
+    for e in it.ents:
+        if not e.alive or e is it.root or e.id not in S:
+            continue
+        h = e.handle
+        if h is None:
+            try:
+                h = e.handle = it.handle(e, "_raw")
+            except Exception:  # noqa
+                continue
+        try:
+            got = (h.created_at, h.updated_at)
+        except Exception as exc:  # noqa
+            ctx.violation("C19/retained-handle/raised/%s" % e.kind, case, {"op": i, "exc": type(exc).__name__})
+            continue
+        want = S[e.id][:2]
+        for which, g, w in (("created_at", got[0], want[0]), ("updated_at", got[1], want[1])):
+            if g != w:
+                ctx.violation("C19/retained-handle/stale-%s/%s" % (which, e.kind), case,
+                              {"op": i, "through-retained-handle": g, "stored": w, "last-op": _opname(op) if op else None})
+
+
 def run_case(case, ctx):
     install_clock()
     path = os.path.join(ctx.workdir, "c19.nix")
@@ -175,6 +202,7 @@ def run_case(case, ctx):
             it.step(op)
         forced = {}     # id -> {"created"/"updated": t}
         S0 = stamps(walk.walk(it.f, data=False))
+        retained_check(it, S0, ctx, case, -1, None)
         for i, op in enumerate(case["prog"]):
             o = op["op"]
             if o == "tick":
@@ -192,6 +220,7 @@ def run_case(case, ctx):
                                       {"op": i, "before": Sb[k][:2], "after": (Sa.get(k) or (None, None))[:2]})
                 flags.add("reopen")
                 S0 = Sa
+                retained_check(it, S0, ctx, case, i, op)
                 continue
             auto = it.auto_ts
             now = _CLOCK.t
@@ -201,6 +230,7 @@ def run_case(case, ctx):
             if st_ == "skip":
                 continue
             S1 = stamps(walk.walk(it.f, data=False))
+            retained_check(it, S1, ctx, case, i, op)
             if o == "auto_ts":
                 flags.add("toggle")
                 for k, v in S0.items():
